@@ -345,7 +345,7 @@ def _scen_worker(args):
     from . import shims, symx
 
     mod = importlib.import_module(modname)
-    shims.patch_quansino()
+    shims.patch_quansino(extra=getattr(mod, "patch_extra", lambda: None)())
     fn = mod.SCENARIOS[name]
     symx._install_monitor()
     res = symx.explore(lambda: fn(symx.Sym(), **params), opts, workers=1, deadline_s=opts.get("deadline_s"))
